@@ -341,3 +341,227 @@ def _(tier, seed):
                         if len(failures) >= 3:
                             return dict(evaluations=evals, distinct=evals, failures=failures)
     return dict(evaluations=evals, distinct=evals, failures=failures)
+
+
+# -- init_resources: the font / colour-space / XObject maps of a content stream come from its Resources, fonts by object number (C05, C06, C16, C18) ---------
+PDFCS = real_module("pdfminer.pdfcolor")
+_gf2 = stub("pdfminer.pdfinterp:PDFResourceManager.get_font", ["self", "objid", "spec"])
+_gf2.result_fn = ("font", lambda self, objid, spec: ("font-for", objid, tuple(sorted(spec))))
+_gp = stub("pdfminer.pdfinterp:PDFResourceManager.get_procset", ["self", "procs"])
+c = contract("pdfminer.pdfinterp:PDFPageInterpreter.init_resources", props=["C05", "C16", "C18"])
+c.param("self", T.Obj("pdfminer.pdfinterp:PDFPageInterpreter", rsrcmgr=T.Obj("pdfminer.pdfinterp:PDFResourceManager"))).param("resources", T.Const("resources"))
+c.skip_cross = True
+c.inline = True
+c.stubs = {"pdfminer.pdfinterp:PDFResourceManager.get_font": _gf2, "pdfminer.pdfinterp:PDFResourceManager.get_procset": _gp}
+c.mod("self.*")
+
+
+def _wire_res(bound, ghosts):
+    LIT = ps.LIT
+    def ref(n, target):
+        o = SObj(pt.PDFObjRef, {"objid": n}, "ref%d" % n)
+        o.f["resolve"] = SymFn(lambda I, default=None, target=target: target, "resolve")
+        return o
+    icc = SObj(pt.PDFStream, {"attrs": {"N": 4}}, "icc")
+    icc.f["get"] = SymFn(lambda I, k, d=None, icc=icc: icc.f["attrs"].get(k, d), "get")
+    f1 = {"Type": LIT("Font"), "Subtype": LIT("Type1")}
+    bound["resources"] = {"Font": {"F1": ref(5, f1), "F2": {"Type": LIT("Font")}}, "XObject": {"Im0": ref(9, "image-stream")},
+                          "ColorSpace": {"CS0": [LIT("ICCBased"), ref(12, icc)], "CS1": LIT("DeviceCMYK"), "CS2": [LIT("DeviceN"), [LIT("a"), LIT("b")], LIT("DeviceRGB"), "fn"], "Bad": []},
+                          "ProcSet": [LIT("PDF")]}
+    ghosts["_r9"] = bound["resources"]["XObject"]["Im0"]
+
+
+c.wire = _wire_res
+c.ens("maps-built-from-the-resources", lambda self, resources, _r9: And(
+    self.resources is resources, self.fontmap == {"F1": ("font-for", 5, ("Subtype", "Type")), "F2": ("font-for", None, ("Type",))},
+    self.xobjmap == {"Im0": _r9},
+    _fld(self.csmap["CS0"], "ncomponents") == 4 and _fld(self.csmap["CS0"], "name") == "ICCBased", self.csmap["CS1"] is PDFCS.PREDEFINED_COLORSPACE["DeviceCMYK"],
+    _fld(self.csmap["CS2"], "ncomponents") == 2, "Bad" not in self.csmap, "DeviceGray" in self.csmap))
+
+
+def _fld(o, k):
+    return o.f[k] if isinstance(o, SObj) else getattr(o, k)
+
+
+# -- do_EI: an inline image is shown as a figure named by its order of appearance with the unit box (C18) ----------------------------------------------------------
+class _DevRec(T.Sort):
+    def fresh(self, ctx, name):
+        o = SObj(None, {"_calls": []}, name)
+        for m in ("begin_figure", "render_image", "end_figure"):
+            o.f[m] = SymFn((lambda m: lambda I, *a, o=o: o.f["_calls"].append((m,) + a))(m), m)
+        return o
+    def sample(self, rng):
+        return None
+    def from_model(self, ev, v):
+        return "device"
+
+
+c = contract("pdfminer.pdfinterp:PDFPageInterpreter.do_EI", props=["C18", "C12"])
+c.param("self", T.Obj("pdfminer.pdfinterp:PDFPageInterpreter", device=_DevRec(), inline_image_count=T.Int(0))).param("obj", T.OneOf("image", "no-geometry", "not-a-stream"))
+c.skip_cross = True
+c.inline = True
+c.mod("self.inline_image_count").mod("self.device._calls")
+
+
+def _wire_ei(bound, ghosts):
+    k = bound["obj"]
+    ghosts["_k"] = k
+    if k == "not-a-stream":
+        bound["obj"] = 7
+    else:
+        s = SObj(pt.PDFStream, {"attrs": {"W": 2, "H": 1} if k == "image" else {"W": 2}}, "inline-stream")
+        s.f["__contains__"] = None
+        bound["obj"] = s
+
+
+c.wire = _wire_ei
+c.ens("figure-image-figure-with-a-name-that-counts-the-images", lambda self, obj, old, _k: (
+    And(len(self.device._calls) == 3, [c_[0] for c_ in self.device._calls] == ["begin_figure", "render_image", "end_figure"],
+        eq(self.inline_image_count, old.self.inline_image_count + 1), self.device._calls[1][2] is obj, tuple(self.device._calls[0][2]) == (0, 0, 1, 1),
+        self.device._calls[0][1] is self.device._calls[1][1], self.device._calls[0][1] is self.device._calls[2][1])
+    if _k == "image" else And(len(self.device._calls) == 0, eq(self.inline_image_count, old.self.inline_image_count))))
+
+
+# -- embedded CMap tables (C07): a code is a path of bytes in the trie, its last byte maps to the CID; earlier entries stay; cid -> Unicode entries by kind ------
+cmapdb = real_module("pdfminer.cmapdb")
+c = contract("pdfminer.cmapdb:FileCMap.add_code2cid", props=["C07"])
+c.param("self", T.Obj("pdfminer.cmapdb:FileCMap")).param("code", T.OneOf("A", "AB", "AC", "XYZ")).param("cid", T.Int(0))
+c.skip_cross = True
+c.inline = True
+c.mod("self.code2cid")
+c.wire = lambda bound, ghosts: bound["self"].f.__setitem__("code2cid", {65: {66: 7}, 90: 9})
+
+
+def _trie_get(d, code):
+    for ch in code:
+        if not isinstance(d, dict) or ord(ch) not in d:
+            return None
+        d = d[ord(ch)]
+    return d
+
+
+c.ens("the-code-now-leads-to-the-cid-and-other-codes-are-kept", lambda self, code, cid: And(
+    _trie_get(self.code2cid, code) is cid or eq(_trie_get(self.code2cid, code), cid),
+    _trie_get(self.code2cid, "Z") == 9,
+    # a one-byte code replaces the subtree that started with that byte; longer codes extend it
+    (_trie_get(self.code2cid, "AB") == 7) if code in ("AC", "XYZ") else True))
+
+_n2u = stub("pdfminer.encodingdb:name2unicode", ["name"])
+_n2u.result_fn = ("text", lambda name: "text-of-" + name)
+c = contract("pdfminer.cmapdb:FileUnicodeMap.add_cid2unichr", props=["C07"])
+c.param("self", T.Obj("pdfminer.cmapdb:FileUnicodeMap")).param("cid", T.OneOf(3, 7)).param("code", T.OneOf("utf16-A", "utf16-pair", "utf16-astral", "odd-bytes", "int-233", "glyph-name", "nbsp-over-space", "nbsp-fresh"))
+c.skip_cross = True
+c.inline = True
+c.stubs = {"pdfminer.encodingdb:name2unicode": _n2u}
+c.mod("self.cid2unichr")
+
+
+def _wire_u(bound, ghosts):
+    k = bound["code"]
+    ghosts["_k"] = k
+    bound["code"] = {"utf16-A": b"\x00A", "utf16-pair": b"\x00f\x00i", "utf16-astral": "\U0001F600".encode("utf-16-be"), "odd-bytes": b"\x00A\x00", "int-233": 233,
+                     "glyph-name": ps.LIT("alpha"), "nbsp-over-space": b"\x00\xa0", "nbsp-fresh": b"\x00\xa0"}[k]
+    bound["self"].f["cid2unichr"] = {1: "kept"}
+    if k == "nbsp-over-space":
+        bound["self"].f["cid2unichr"][7] = " "
+        bound["cid"] = 7
+
+
+c.wire = _wire_u
+c.ens("entry-by-kind-of-target", lambda self, cid, _k: (
+    (self.cid2unichr.get(7) == " " and self.cid2unichr.get(1) == "kept") if _k == "nbsp-over-space" else
+    And(self.cid2unichr.get(1) == "kept" or eq(cid, 1),
+        _sym_get(self.cid2unichr, cid) == {"utf16-A": "A", "utf16-pair": "fi", "utf16-astral": "\U0001F600", "odd-bytes": "A", "int-233": "\u00e9", "glyph-name": "text-of-alpha",
+                                           "nbsp-fresh": "\u00a0"}[_k])))
+
+
+def _sym_get(d, k):
+    for kk, v in d.items():
+        if kk is k:
+            return v
+    return d.get(k) if isinstance(k, int) else None
+
+
+# -- composite fonts (C07): Unicode comes from the font's map or is undefined; the displacement of a vertical glyph from W2 or the default -----------------------
+pf = real_module("pdfminer.pdffont")
+
+
+class _UMap(T.Sort):
+    def fresh(self, ctx, name):
+        from pyvc.symexec import SymRaise
+        k = ctx.choose(["has-entry", "no-entry", "no-map"], "umap")
+        if k == "no-map":
+            o = None
+        else:
+            o = SObj(cmapdb.UnicodeMap, {"_k": k}, name)
+            def get_unichr(I, cid, k=k):
+                if k == "no-entry":
+                    raise SymRaise(KeyError, "get_unichr")
+                return "text-from-map"
+            o.f["get_unichr"] = SymFn(get_unichr, "get_unichr")
+        UM[0] = k
+        return o
+    def sample(self, rng):
+        return None
+    def from_model(self, ev, v):
+        return UM[0]
+
+
+UM = [None]
+c = contract("pdfminer.pdffont:PDFCIDFont.to_unichr", props=["C07"])
+c.param("self", T.Obj("pdfminer.pdffont:PDFCIDFont", unicode_map=_UMap(), cidcoding=T.Const("Adobe-Japan1"))).param("cid", T.Int(0))
+c.skip_cross = True
+c.inline = True
+c.returns(T.Opaque("str"))
+c.may_raise(pf.PDFUnicodeNotDefined, lambda self: UM[0] != "has-entry")
+c.ens("text-from-the-fonts-map", lambda result: result == "text-from-map" and UM[0] == "has-entry")
+
+c = contract("pdfminer.pdffont:PDFCIDFont.char_disp", props=["C07", "C05"])
+c.param("self", T.Obj("pdfminer.pdffont:PDFCIDFont", default_disp=T.Const((None, 880)))).param("cid", T.OneOf(5, 6))
+c.skip_cross = True
+c.inline = True
+c.wire = lambda bound, ghosts: bound["self"].f.__setitem__("disps", {5: (250, 800)})
+c.returns(T.Opaque("disp"))
+c.ens("W2-entry-else-default", lambda cid, result: tuple(result) == ((250, 800) if cid == 5 else (None, 880)))
+
+
+# -- simple fonts (C06): the encoding is the named one, or the dictionary's base encoding overlaid by its Differences; a ToUnicode stream is parsed into the map ----
+_ge = stub("pdfminer.encodingdb:EncodingDB.get_encoding", ["cls", "name", "diff"])
+_ge.defaults["diff"] = None
+_ge.result_fn = ("table", lambda cls, name, diff: ("encoding", name, None if diff is None else tuple(diff)))
+_pfi = stub("pdfminer.pdffont:PDFFont.__init__", ["self", "descriptor", "widths", "default_width"])
+_pfi.defaults["default_width"] = None
+_cpi = stub("pdfminer.cmapdb:CMapParser.__init__", ["self", "cmap", "fp"])
+_cpr = stub("pdfminer.cmapdb:CMapParser.run", ["self"])
+c = contract("pdfminer.pdffont:PDFSimpleFont.__init__", props=["C06"])
+c.param("self", T.Obj("pdfminer.pdffont:PDFSimpleFont")).param("descriptor", T.Const("descriptor")).param("widths", T.Const("widths"))
+c.param("spec", T.OneOf("no-encoding", "name", "indirect-name", "dict-base-and-differences", "dict-differences-only", "name-and-tounicode"))
+c.skip_cross = True
+c.inline = True
+c.mod("self.*")
+c.stubs = {"pdfminer.encodingdb:EncodingDB.get_encoding": _ge, "pdfminer.pdffont:PDFFont.__init__": _pfi, "pdfminer.cmapdb:CMapParser.__init__": _cpi, "pdfminer.cmapdb:CMapParser.run": _cpr}
+
+
+def _wire_sf(bound, ghosts):
+    LIT = ps.LIT
+    k = bound["spec"]
+    ghosts["_k"] = k
+    def ref(n, target):
+        o = SObj(pt.PDFObjRef, {"objid": n}, "ref%d" % n)
+        o.f["resolve"] = SymFn(lambda I, default=None, target=target: target, "resolve")
+        return o
+    diffs = [65, LIT("alpha")]
+    tou = SObj(pt.PDFStream, {"attrs": {}}, "tounicode")
+    tou.f["get_data"] = SymFn(lambda I: b"cmap-text", "get_data")
+    bound["spec"] = {"no-encoding": {}, "name": {"Encoding": LIT("WinAnsiEncoding")}, "indirect-name": {"Encoding": ref(9, LIT("MacRomanEncoding"))},
+                     "dict-base-and-differences": {"Encoding": {"BaseEncoding": LIT("WinAnsiEncoding"), "Differences": diffs}},
+                     "dict-differences-only": {"Encoding": ref(9, {"Differences": diffs})}, "name-and-tounicode": {"Encoding": LIT("WinAnsiEncoding"), "ToUnicode": tou}}[k]
+
+
+c.wire = _wire_sf
+c.ens("encoding-chosen-as-ISO-9.6.6-says", lambda self, _k, trace: And(
+    self.cid2unicode == {"no-encoding": ("encoding", "StandardEncoding", None), "name": ("encoding", "WinAnsiEncoding", None), "indirect-name": ("encoding", "MacRomanEncoding", None),
+                         "dict-base-and-differences": ("encoding", "WinAnsiEncoding", (65, ps.LIT("alpha"))),
+                         "dict-differences-only": ("encoding", "StandardEncoding", (65, ps.LIT("alpha"))), "name-and-tounicode": ("encoding", "WinAnsiEncoding", None)}[_k],
+    (self.unicode_map is None) == (_k != "name-and-tounicode"),
+    [n.split(".")[-1] for n, b in trace if "CMapParser" in n] == (["__init__", "run"] if _k == "name-and-tounicode" else [])))
